@@ -361,6 +361,7 @@ def trajectory_independence(r):
     if isinstance(tr, Raised):
         return
     path = write_tmp("".join(TrajectoryExporter.export(tr)), ".trajectory")
+    want_states = [observe_state(tr[0].previous_state)] + [observe_state(t.next_state) for t in tr]
     for mode, pm in (("with-problem", prob), ("objects-deduced", None)):
         for i in range(2):
             for direction in ("post-state", "pre-state"):
@@ -379,6 +380,21 @@ def trajectory_independence(r):
                 guard(mutate)
                 after = guard(observe_state, witness)
                 r.count("transitions")
+                # ... and every other state the same parse handed out (states of other steps in which a fluent has the
+                # same value) reads as before as well
+                for k, c in enumerate(obs.components):
+                    for side, st in (("pre", c.previous_state), ("post", c.next_state)):
+                        if st is victim:
+                            continue
+                        idx = k if side == "pre" else k + 1
+                        was = want_states[idx]
+                        now = guard(observe_state, st)
+                        if not (idx in (i + 1,)) and (isinstance(now, Raised) or not same_state(now, was)):
+                            r.fail("copy-independence", f"[{mode}] parsed trajectory: after changing the {direction} at the "
+                                   f"boundary of steps {i}/{i + 1} in place, the {side}-state of step {k} reads {show(now)} "
+                                   f"instead of {was.to_json()}", was.to_json(), show(now),
+                                   tags=["trajectory-boundary", "other-steps", mode])
+                            return
                 if isinstance(before, Raised) or isinstance(after, Raised) or not same_state(before, after):
                     r.fail("copy-independence", f"[{mode}] parsed trajectory: after changing the {direction} at the boundary "
                            f"of steps {i}/{i + 1} in place, the equal state on the other side of the boundary reads "
